@@ -32,7 +32,7 @@ package log
 //@   trusted
 //@   modifies fs
 //@   ensures result1 != nil ==> result0 == nil
-//@   ensures result1 == nil ==> result0 != nil && isfresh(result0) && result0.prevIndex == prevIndex && result0.prev == nil && result0.next == nil && result0.file != nil && isfresh(result0.file) && isfresh(arrof(result0.file.Data)) && SegGood(result0) && result0.synced == result0.n && fs[lfile(dir, prevIndex)] && result0.file.name == lfile(dir, prevIndex)
+//@   ensures result1 == nil ==> result0 != nil && isfresh(result0) && result0.prevIndex == prevIndex && result0.prev == nil && result0.next == nil && result0.file != nil && isfresh(result0.file) && isfresh(arrof(result0.file.Data)) && SegGood(result0) && result0.synced == result0.n && fs[lfile(dir, prevIndex)] && result0.file.name == lfile(dir, prevIndex) && result0.prevIndex + result0.n < 18446744073709551615
 //@   ensures result1 == nil && !old(fs[lfile(dir, prevIndex)]) ==> result0.n == 0 && result0.size == 0 && len(result0.file.Data) == opt.SegmentSize
 //@   ensures forall(p, p != lfile(dir, prevIndex) ==> fs[p] == old(fs[p]))
 //@   ensures result1 != nil ==> fs[lfile(dir, prevIndex)] == old(fs[lfile(dir, prevIndex)])
@@ -154,3 +154,53 @@ package log
 //@   ensures [C13.close-frame] LogShape(l) && forall(x, l.gin[x] ==> SegKept(x))
 //@   loop 1 invariant LogShape(l) && (s != nil ==> InList(l, s) && SegGood(s)) && forall(x, l.gin[x] ==> SegKept(x))
 //@   loop 1 invariant err == nil ==> forall(x, l.gin[x] && SN(x) > 0 ==> SSy(x) == SN(x))
+
+// ---------------------------------------------------------------------------
+// opening a log directory (C14, C10): the segment files are opened in index order and linked while they
+// are contiguous; a file that does not continue the chain (left by a crash in a roll-over or a removal)
+// is deleted. Afterwards no stale segment file is left (NoStale), which is what Append/Reset rely on.
+// gopen / gopenIdx: ghost set of the segments opened by this call and ghost index prevIndex -> segment.
+//@ ghost var gopen map[uint64]bool
+//@ ghost var gopenIdx map[uint64]uint64
+
+// T-fs (trusted): the prevIndex values of the segment files in the directory, ascending, each once
+//@ func segments
+//@   trusted
+//@   ensures result1 == nil ==> base(result0) == 0 && len(result0) < 4611686018427387904
+//@   ensures result1 == nil ==> forall(k, 0 <= k && k < len(result0) ==> fs[lfile(dir, raw(result0, k))])
+//@   ensures result1 == nil ==> forall(j, k, 0 <= j && j < k && k < len(result0) ==> raw(result0, j) < raw(result0, k))
+//@   ensures result1 == nil ==> forall(i, fs[lfile(dir, i)] ==> 0 <= gpos(arrof(result0), lfile(dir, i)) && gpos(arrof(result0), lfile(dir, i)) < len(result0) && raw(result0, gpos(arrof(result0), lfile(dir, i))) == i)
+
+//@ pure OpenedIdx(dir string, S map[uint64]bool, I map[uint64]uint64, j uint64) bool = I[j] != 0 && S[I[j]] && SName(I[j]) == lfile(dir, j) && SP(I[j]) == j
+//@ func openSegments
+//@   props C10 C13 C06
+//@   requires opt.SegmentSize >= 1024
+//@   modifies fs, gopen, gopenIdx, segment.next, segment.prev, segment.gord
+//@   ensures [C14.open-shape] result0 != nil ==> ListShape(result0, result1, gopen) && forall(x, gopen[x] ==> isfresh(x))
+//@   ensures result2 == nil ==> result0 != nil
+//@   ensures [C14+C13.open-no-stale] result2 == nil ==> forall(j, fs[lfile(dir, j)] ==> OpenedIdx(dir, gopen, gopenIdx, j))
+//@   ghostcode after call openSegment 1: gopen := setof(ref(result0))
+//@   ghostcode after call openSegment 1: gopenIdx[raw(offs, base(offs))] := ref(result0)
+//@   ghostcode after call connect 1: s.gord := last.gord + 1
+//@   ghostcode after call connect 1: gopen[ref(s)] := true
+//@   ghostcode after call connect 1: gopenIdx[off] := ref(s)
+//@   loop 1 invariant -1 <= rangeindex && rangeindex < len(offs) && base(offs) == 1
+//@   loop 1 invariant ListShape(first, last, gopen) && forall(x, gopen[x] ==> isfresh(x) && SSy(x) == SN(x))
+//@   loop 1 invariant forall(j, fs[lfile(dir, j)] ==> old(fs[lfile(dir, j)]) || j == raw(offs, 0))
+//@   loop 1 invariant forall(j, fs[lfile(dir, j)] ==> OpenedIdx(dir, gopen, gopenIdx, j) || (old(fs[lfile(dir, j)]) && gpos(arrof(offs), lfile(dir, j)) > 1 + rangeindex))
+
+//@ pure SNext(x *segment) uint64 = ref(x.next)
+//@ func (Options).validate
+//@   trusted
+//@   ensures result0 == nil ==> o.SegmentSize >= 1024
+
+// Open: what Append / Reset / RemoveLTE require of a log object holds for a freshly opened one (C14, C10)
+//@ func Open
+//@   props C10 C13 C06
+//@   modifies fs, gopen, gopenIdx, segment.next, segment.prev, segment.gord, segment.synced, elems(uint8), mmap.File.gdur
+//@   ensures result1 != nil ==> result0 == nil
+//@   ensures [C14+C10.open-shape] result1 == nil ==> result0 != nil && isfresh(result0) && LogShape(result0) && result0.index == nil && result0.dir == dir
+//@   ensures [C14+C13.open-no-stale] result1 == nil ==> NoStale(result0)
+//@   ghostcode at return: result0.gin := gopen
+//@   ghostcode at return: result0.gidx := gopenIdx
+//@   loop 1 invariant first != nil ==> gopen[ref(first)] && forall(x, gopen[x] ==> x != 0 && allocated(x) && SegGood(x) && (SNext(x) != 0 ==> gopen[SNext(x)])) && forall(x, y, gopen[x] && gopen[y] && x != y ==> SegSep(x, y))
